@@ -7,6 +7,7 @@ import Edn.Proofs.Number
 import Edn.Proofs.NumberReader
 import Edn.Proofs.NumberSound
 import Edn.Proofs.CljNumberSound
+import Edn.Proofs.ExpNumberSound
 
 namespace Edn.Properties.C04
 open Edn.Model Edn.Proofs
@@ -112,5 +113,93 @@ example : readNumber Cfg.core "-12 ".toUTF8.toList = .ok (.int (-12)) " ".toUTF8
 example : parseInt64 Cfg.core "9223372036854775807".toUTF8.toList 10 false = some 9223372036854775807 := by decide +kernel
 example : parseInt64 Cfg.core "9223372036854775808".toUTF8.toList 10 false = none := by decide +kernel
 example : parseInt64 Cfg.core "9223372036854775808".toUTF8.toList 10 true = some (-9223372036854775808) := by decide +kernel
+
+/-! ### experimental flag only (`Edn.Spec.expCfg = ⟨clj := false, exp := true⟩`): `_` separators -/
+
+/-- Exactness with the experimental flag only: started where the dispatcher sends a number, the
+    number reader returns a payload and a continuation point **iff** the bytes consumed are a token
+    of `Edn.Spec.ExpNum` (decimal integer in/out of the 64-bit range, `N`, float, `M` - the core forms
+    with `_` separators inside the digit runs: after the first digit of the integer part but never
+    after a lone `0` nor at its end, anywhere in the fraction but at its start, anywhere in the
+    exponent digits but at their start, never directly in front of `.`, `e`, `N`, `M`) denoting that
+    payload, and the continuation is the end of the input or a terminator.  No hexadecimal, octal,
+    radix or ratio form, no run of leading zeros.  Integers denote their value with the separators
+    ignored (`1_000` is 1000); big integers / big decimals keep their text *with* the separators;
+    floats denote `parse_double_from_buffer` of the whole token. -/
+theorem exp_number_reader_is_the_grammar (s rest : Bytes) (v : NumVal)
+    (hstart : ∃ c t, s = c :: t ∧ (is09 c = true ∨ ((c = 0x2B ∨ c = 0x2D) ∧ ∃ nx t', t = nx :: t' ∧ is09 nx = true))) :
+    readNumber Edn.Spec.expCfg s = .ok v rest ↔
+      ∃ tok, s = tok ++ rest ∧ Edn.Spec.ExpNum tok v ∧ Edn.Spec.TermStart rest :=
+  readNumber_exp_iff s rest v hstart
+
+/-- the experimental-only grammar contains the core grammar with the same payloads (whichever
+    configuration `cfg` the float payloads of the core token are computed under) … -/
+theorem exp_grammar_extends_core (cfg : Cfg) (tok : Bytes) (v : NumVal) (h : Edn.Spec.CoreNum cfg tok v) :
+    Edn.Spec.ExpNum tok v :=
+  expNum_of_coreNum cfg tok v h
+
+/-- … it adds nothing on byte strings without `_` … -/
+theorem exp_grammar_is_core_without_separators (tok : Bytes) (v : NumVal) (hn : (0x5F : UInt8) ∉ tok) :
+    Edn.Spec.ExpNum tok v ↔ Edn.Spec.CoreNum Cfg.core tok v :=
+  expNum_iff_coreNum_of_noSep tok v hn
+
+/-- … and it is contained in the grammar of the configuration with both flags, with the same
+    payloads -/
+theorem exp_grammar_within_clj_exp (tok : Bytes) (v : NumVal) (h : Edn.Spec.ExpNum tok v) :
+    Edn.Spec.CljNum ⟨true, true⟩ tok v :=
+  cljNum_of_expNum tok v h
+
+/-- The separators do not change what a token denotes: the token with its separators removed
+    (`Edn.Spec.unsep`) is a token of core EDN, and the payload of the underscored token is the payload
+    of that core token up to the separators in the texts it keeps (`Edn.Spec.unsepVal`).  Exact for
+    integers in the 64-bit range (the same `int`: `separators_exact_int`) and for floats (the same
+    double: `separators_exact_float`); a big integer / big decimal payload has the same sign and
+    radix, and its text - which keeps the separators - is the core payload's text once they are
+    removed. -/
+theorem separators_do_not_change_the_value (tok : Bytes) (v : NumVal) (h : Edn.Spec.ExpNum tok v) :
+    Edn.Spec.CoreNum Cfg.core (Edn.Spec.unsep tok) (Edn.Spec.unsepVal v) :=
+  expNum_unsep tok v h
+
+theorem separators_exact_int (tok : Bytes) (i : Int) (h : Edn.Spec.ExpNum tok (.int i)) :
+    Edn.Spec.CoreNum Cfg.core (Edn.Spec.unsep tok) (.int i) :=
+  expNum_int_unsep tok i h
+
+theorem separators_exact_float (tok : Bytes) (b : UInt64) (h : Edn.Spec.ExpNum tok (.float b)) :
+    Edn.Spec.CoreNum Cfg.core (Edn.Spec.unsep tok) (.float b) :=
+  expNum_float_unsep tok b h
+
+/-- the same at reader level: what is accepted with the experimental flag only is accepted by the
+    core reader once the separators are removed from the consumed bytes, with the same payload up to
+    the separators -/
+theorem separators_reader_level (s rest : Bytes) (v : NumVal)
+    (hstart : ∃ c t, s = c :: t ∧ (is09 c = true ∨ ((c = 0x2B ∨ c = 0x2D) ∧ ∃ nx t', t = nx :: t' ∧ is09 nx = true)))
+    (h : readNumber Edn.Spec.expCfg s = .ok v rest) :
+    ∃ tok, s = tok ++ rest ∧
+      readNumber Cfg.core (Edn.Spec.unsep tok ++ rest) = .ok (Edn.Spec.unsepVal v) rest :=
+  readNumber_exp_unsep s rest v hstart h
+
+/-- non-vacuity: the hypothesis `hstart` holds on `1_000 `, which reads as 1000 up to the space -/
+example : ∃ c t, "1_000 ".toUTF8.toList = c :: t ∧
+    (is09 c = true ∨ ((c = 0x2B ∨ c = 0x2D) ∧ ∃ nx t', t = nx :: t' ∧ is09 nx = true)) :=
+  ⟨0x31, "_000 ".toUTF8.toList, by decide +kernel, Or.inl (by decide)⟩
+example : readNumber Edn.Spec.expCfg "1_000 ".toUTF8.toList = .ok (.int 1000) " ".toUTF8.toList := by decide +kernel
+example : readNumber Cfg.core "1_000 ".toUTF8.toList = .err "_000 ".toUTF8.toList := by decide +kernel
+/-- accepted: consecutive separators; rejected: a trailing separator, a separator after a lone `0`,
+    in front of `.` or `N`, at the start of the fraction or of the exponent digits -/
+example : readNumber Edn.Spec.expCfg "1__0".toUTF8.toList = .ok (.int 10) [] := by decide +kernel
+example : readNumber Edn.Spec.expCfg "1_".toUTF8.toList = .err [] := by decide +kernel
+example : readNumber Edn.Spec.expCfg "0_1".toUTF8.toList = .err "_1".toUTF8.toList := by decide +kernel
+example : readNumber Edn.Spec.expCfg "1_.5".toUTF8.toList = .err ".5".toUTF8.toList := by decide +kernel
+example : readNumber Edn.Spec.expCfg "1._5".toUTF8.toList = .err "_5".toUTF8.toList := by decide +kernel
+example : readNumber Edn.Spec.expCfg "1e_5".toUTF8.toList = .err "_5".toUTF8.toList := by decide +kernel
+example : readNumber Edn.Spec.expCfg "1_N".toUTF8.toList = .err "N".toUTF8.toList := by decide +kernel
+/-- big payloads keep the separators; removing them gives the core payload -/
+example : readNumber Edn.Spec.expCfg "1_0N".toUTF8.toList = .ok (.bigint false 10 "1_0".toUTF8.toList) [] := by
+  decide +kernel
+example : Edn.Spec.unsepVal (.bigint false 10 "1_0".toUTF8.toList) = .bigint false 10 "10".toUTF8.toList := by
+  decide +kernel
+/-- a float with separators is the double of the text without them -/
+example : readNumber Edn.Spec.expCfg "1_0.2_5e1_0".toUTF8.toList = readNumber Cfg.core "10.25e10".toUTF8.toList := by
+  decide +kernel
 
 end Edn.Properties.C04
